@@ -90,9 +90,24 @@ impl ProgCheck {
     pub fn check_case(&self, ctx: &mut ShardCtx, tape: &[u8], profile: &str) -> Outcome {
         let p = prepare(tape, profile);
         ctx.eval();
-        let r = match preflight(ctx, &p) {
-            Ok(r) => r,
-            Err(o) => return o,
+        let r = if self.kind == Kind::Prune {
+            // differential only: programs need not be intent-type correct (reported runtime
+            // errors are part of the property), so the reference interpreter is not consulted
+            if !p.resolved.ok() {
+                ctx.note("generator produced a program the reference static checker rejects; case discarded");
+                return Outcome::Discard("generator-invalid (harness bug, see notes)");
+            }
+            crate::nsgen::refint::RefRun {
+                output: Vec::new(),
+                ending: Ending::Normal,
+                ambiguous: None,
+                stats: Default::default(),
+            }
+        } else {
+            match preflight(ctx, &p) {
+                Ok(r) => r,
+                Err(o) => return o,
+            }
         };
         classify_features(ctx, &p.features);
         let src = &p.source;
